@@ -202,6 +202,33 @@ pub fn do_damage_op(st: &mut TreeSt, toks: &[&str], _c: &mut Ctx) -> String {
                 }
             }
         }
+        "BPUSHL" => {
+            // DMG BPUSHL p n z0 id0 v0: a new leaf with n entries is linked in after the last
+            // child (a leaf) of branch p and pushed, with its first key, onto that branch
+            if let Some(bid) = branch_at(p(toks[2]) as usize) {
+                let n = p(toks[3]);
+                let (z0, id0, v0) = (p(toks[4]), p(toks[5]), p(toks[6]));
+                let last = t.get_branch(bid).and_then(|b| b.verif_fields().2.last().copied());
+                if let (Some(NodeRef::Leaf(lid, _)), true) = (last, n > 0) {
+                    if let Some(old_next) = t.get_leaf(lid).map(|l| l.verif_fields().3) {
+                        let cap = t.verif_parts().0;
+                        let mut leaf = LeafNode::new(cap);
+                        for i in 0..n {
+                            leaf.push_key(VKey::new(z0 + i, (id0 + i) as u64));
+                            leaf.push_value(VVal::new(v0 + i));
+                        }
+                        *leaf.verif_fields_mut().3 = old_next;
+                        let nid = t.allocate_leaf(leaf);
+                        t.set_leaf_next(lid, nid);
+                        if let Some(b) = t.get_branch_mut(bid) {
+                            let (_, ks, cs) = b.verif_fields_mut();
+                            ks.push(VKey::new(z0, id0 as u64));
+                            cs.push(NodeRef::Leaf(nid, PhantomData));
+                        }
+                    }
+                }
+            }
+        }
         "BREF" => {
             if let Some(id) = branch_at(p(toks[2]) as usize) {
                 if let Some(b) = t.get_branch_mut(id) {
